@@ -57,7 +57,8 @@ def h_agree(ctx, name='sma', n=6, variant=0, source_type=None):
             if not ok:
                 ctx.prove(False, 'C14:last-sequential-entry-equals-single-value', {'indicator': name, 'field': fld, 'n': n, 'kind': 'nan-pattern'})
             elif cond is not True:
-                ctx.prove(cond, 'C14:last-sequential-entry-equals-single-value', {'indicator': name, 'field': fld, 'n': n})
+                ctx.prove(cond, 'C14:last-sequential-entry-equals-single-value', {'indicator': name, 'field': fld, 'n': n},
+                          witness=indh.clear_difference(arr[-1], sv))
             ctx.event('last-entry-compared')
     else:
         # long input: the single value equals the sequential result on the trailing warm-up window
@@ -74,7 +75,8 @@ def h_agree(ctx, name='sma', n=6, variant=0, source_type=None):
             if not ok:
                 ctx.prove(False, 'C14:single-value-on-long-input-equals-sequential-on-warmup-window', {'indicator': name, 'field': fld, 'n': n, 'kind': 'nan-pattern'})
             elif cond is not True:
-                ctx.prove(cond, 'C14:single-value-on-long-input-equals-sequential-on-warmup-window', {'indicator': name, 'field': fld, 'n': n})
+                ctx.prove(cond, 'C14:single-value-on-long-input-equals-sequential-on-warmup-window', {'indicator': name, 'field': fld, 'n': n},
+                          witness=indh.clear_difference(arr[-1], sv))
             ctx.event('window-compared')
     ctx.event('indicator-compared')
 
